@@ -188,6 +188,7 @@ func checkC07(p *core.Program, r *core.Report) {
 	r.Rule("O7.2", "JSON key → wire field → parameter field → witness field of the same role, index-faithful, over the system's dimensions")
 	r.Rule("O7.3", "prover errors propagate; (nil, err) / (&Proof{groth16.Prove result}, nil) return discipline")
 	r.Rule("O7.4", "groth16.Prove(system constraint system, system proving key, full witness of the assignment)")
+	r.Rule("O7.7", "the prover refuses only through an accounted callee's error (shape validation, witness construction, solver) or a self-constructed error whose condition reads dimensions only — no precondition on request values beyond the statement's")
 	r.Rule("O7.6", "the circuits accept exactly valid batches (imported verdicts of the C01, C02 and C03 obligations)")
 	r.Rule("O7.5", "verifier: hash parameter → public field of a PublicOnly witness → groth16.Verify(proof, system verifying key, witness); its error is returned")
 	r.Trusted = append(r.Trusted, "Groth16 completeness and knowledge soundness (gnark)", "frontend.NewWitness copies the assignment's fields by the circuit schema and reduces values mod r", "encoding/json decodes by struct tag")
@@ -345,6 +346,8 @@ func checkC07(p *core.Program, r *core.Report) {
 			r.Check(len(p4) == 0, "O7.4", name+": groth16.Prove operands", p.Pos(fn.Pos()), "Prove(ps.ConstraintSystem, ps.ProvingKey, NewWitness(&assignment, BN254))", strings.Join(p4, "; "))
 			// O7.3
 			checkProverReturns(p, r, ix, fn)
+			// O7.7
+			checkRefusals(p, r, "O7.7", fn)
 		} else if verify != nil {
 			// ---------------- verifier
 			nVerifiers++
